@@ -153,7 +153,8 @@ def tasks(tier, seed):
     for chatty in (False, True):
         for ctmo in (0, 1, 0.5):
             for first in range(len(EVENTS)):
-                ts.append({"chatty": chatty, "tmo": 5, "first": first, "depth": depth - 1, "ctmo": ctmo,
+                # (these tasks also give the status-carrying close() call another legal status: 0, 65535, 3000 instead of 1001)
+                ts.append({"chatty": chatty, "tmo": 5, "first": first, "depth": depth - 1, "ctmo": ctmo, "cstatus": {0: 0, 1: 65535, 0.5: 3000}[ctmo],
                            "name": "%s/t5/close-timeout=%s/%s" % ("chatty" if chatty else "quiet", ctmo, EVENTS[first])})
     # the same machine on a connection without locks (enable_multithread=False)
     for first in range(len(EVENTS)):
@@ -252,7 +253,7 @@ class Harness:
             elif ev == "close":
                 ret = ws.close(**ckw)
             elif ev == "close1001":
-                ret = ws.close(1001, b"bye", **ckw)
+                ret = ws.close(self.d.get("cstatus", 1001), b"bye", **ckw)
             elif ev == "close-1":
                 ret = ws.close(-1, **ckw)
             elif ev == "close65536":
@@ -326,7 +327,7 @@ class Harness:
         # I1 / I2: close frames on the client's own initiative
         if ev in ("close", "close1001", "close-1", "close65536"):
             if was_state == "OPEN" and ev in ("close", "close1001") and not ref["reset"]:
-                want = struct.pack("!H", 1000) if ev == "close" else struct.pack("!H", 1001) + b"bye"
+                want = struct.pack("!H", 1000) if ev == "close" else struct.pack("!H", self.d.get("cstatus", 1001)) + b"bye"
                 if len(closes) != 1 or closes[0].payload != want:
                     raise Violation({"kind": "close-frame-wrong", "op": ev},
                                     "history %s: %s on an open connection wrote close frames %r, expected one with body %r" % (H, ev, [c.payload for c in closes], want))
